@@ -330,7 +330,8 @@ class Ctx:
     def int(self, name, lo=None, hi=None):
         from .num import Sym
         if self.mode == "concrete":
-            v = int(self.values[name])
+            # (an input that the counterexample's path never created takes a default value)
+            v = int(self.values.get(name, lo if lo is not None else 0))
             if (lo is not None and v < lo) or (hi is not None and v > hi):
                 raise Infeasible(name)
             return v
@@ -345,7 +346,7 @@ class Ctx:
     def real(self, name, lo=None, hi=None, lo_open=False, hi_open=False, exact=False):
         from .num import Sym, lift
         if self.mode == "concrete":
-            v = Fraction(self.values[name])
+            v = Fraction(self.values.get(name, lo if lo is not None and not lo_open else (Fraction(lo) + 1 if lo is not None else 0)))
             ok = True
             if lo is not None:
                 ok &= (v > Fraction(lo)) if lo_open else (v >= Fraction(lo))
@@ -365,7 +366,7 @@ class Ctx:
     def bool(self, name):
         from .num import Sym
         if self.mode == "concrete":
-            return bool(self.values[name])
+            return bool(self.values.get(name, False))
         return Sym(self._reg(name, z3.Bool(name)))
 
     # -- assumptions / obligations
